@@ -150,7 +150,35 @@ def rename_population(tier, seed):
                 if rng.random() < 0.5:
                     x["grammar_param"] = rng.choice([p for p in PARAM_POOL if p not in pool[:12] and p not in names])
             out.append(x)
+    # annotated operator nonterminals next to nonterminals whose names look like tier names
+    n_prec = 14 if tier == "quick" else 80
+    for i in range(n_prec):
+        cg = core.prec_grammar(rng, 5000 + i, helper=True)
+        cg["bound"] = (4, 5)
+        lv = [l for l in cg["levels"][:-1]]
+        variants = [None,
+                    {"S": "Start", "E": "Expr", "H": "Helper"},
+                    {"S": "S", "E": "Expr", "H": "Expr%d" % rng.choice(lv)},
+                    {"S": "S", "E": "E", "H": "E%d" % rng.choice(lv)},
+                    {"S": "__S", "E": "__0", "H": "__0%d" % rng.choice(lv)}]
+        for v, names in enumerate(variants):
+            x = copy.deepcopy(cg)
+            x["id"] = "h%04dv%d" % (5000 + i, v)
+            if names:
+                x["names"] = names
+                x["prec"] = dict(cg["prec"])
+            out.append(x)
     return out
+
+
+def _tier_facts(cg):
+    """does a renamed nonterminal carry the name LALRPOP gives a precedence tier (`Name<level>`)?"""
+    if not cg or not cg.get("prec") or not cg.get("names"):
+        return []
+    e = cg["names"].get(cg["prec"]["nt"], cg["prec"]["nt"])
+    tiers = {"%s%d" % (e, l) for l in cg.get("levels", [])[:-1]}
+    others = {v for k, v in cg["names"].items() if k != cg["prec"]["nt"]}
+    return ["tier_name_collision=yes"] if tiers & others else []
 
 
 def check_C25(tier, seed):
@@ -162,6 +190,7 @@ def check_C25(tier, seed):
     acc = set(s["accepted_modules"])
     rej = {m: msg for m, msg in s["rejected"]}
     extra_dis = []
+    bycg = {cg["id"]: cg for cg in rename_population(tier, seed)}
     for m in sorted(acc | set(rej)):
         gid, algo, backend = m.split("_")
         if gid.endswith("v0"):
@@ -171,7 +200,7 @@ def check_C25(tier, seed):
             extra_dis.append({"prop": "C25", "kind": "renaming_changes_verdict", "backend": backend, "algo": algo, "gid": gid,
                               "start": "-", "input": [], "detail": "base %s, renamed %s: %s" % (
                                   "accepted" if base in acc else "rejected", "accepted" if m in acc else "rejected",
-                                  rej.get(m, rej.get(base, ""))), "facts": []})
+                                  rej.get(m, rej.get(base, ""))), "facts": _tier_facts(bycg.get(gid)), "cg": bycg.get(gid)})
     s["disagreements"] += extra_dis
     return _report("C25", tier, seed, s,
                    "random annotated grammars, each rendered once with plain names and several times under injective renamings of "
@@ -315,11 +344,45 @@ def check_C15(tier, seed):
                            "byte-identical output to set_features")
 
 
-REGISTRY = {"C14": check_C14, "C25": check_C25, "C15": check_C15}
+# --------------------------------------------------------------------------
+# C12: precedence / associativity annotations
+# --------------------------------------------------------------------------
+def prec_population(tier, seed):
+    rng = random.Random(seed * 17 + 4409)
+    n = 90 if tier == "quick" else 600
+    return [core.prec_grammar(rng, i) for i in range(n)]
+
+
+def _prec_variants(cg, idx):
+    return [("lane", "table"), ("lane", "ascent")] if idx % 3 == 0 else [("lane", "table")]
+
+
+def check_C12(tier, seed):
+    def owner(cg, prop):
+        return "C12" if prop in ("C01", "C02", "C04", "C06", "C07", "C17", "C19", "C08") else prop + "@base"
+
+    s = _summary("prec", tier, seed, prec_population, _prec_variants, owner)
+    rep_extra = {}
+    # the tiered grammar is LR(1) (spec) but LALRPOP rejects the annotated one: the expansions differ
+    viol = []
+    for m, msg in s["rejected"]:
+        gid, algo, backend = m.split("_")
+        viol.append({"prop": "C12", "kind": "annotated_grammar_rejected", "backend": backend, "algo": algo, "gid": gid,
+                     "start": "S", "input": [], "detail": msg, "facts": []})
+    s["disagreements"] += viol
+    return _report("C12", tier, seed, s,
+                   "random operator nonterminals: atoms, prefix, postfix, binary and ternary alternatives over 2-4 levels with "
+                   "arbitrary level numbers, interleaved order, inherited levels and associativities; Prec.tla builds the "
+                   "documented tiered grammar, Sem.tla evaluates every operator/operand sequence up to the bound (only LR(1) tiered "
+                   "grammars are compared); the parser LALRPOP generates from the annotated grammar must accept the same "
+                   "sequences with the same trees", extra=rep_extra)
+
+
+REGISTRY = {"C14": check_C14, "C25": check_C25, "C15": check_C15, "C12": check_C12}
 
 
 ENGINES = [{"name": "feat", "path": "tools/c_feat.py (on top of engine core), spec/Sem.tla (inline), spec/Cfg.tla",
-            "serves_properties": ["C14", "C15", "C25"],
+            "serves_properties": ["C12", "C14", "C15", "C25"],
             "kind_free_text": "one grammar rendered in variants (inline subsets, feature sets, renamings); each variant's expected "
                               "behaviour from Sem.tla (+ Cfg.tla); replayed through the generated parsers"}]
 
@@ -345,6 +408,12 @@ MANIFEST = [
                   "byte-compared.",
            "Feature names without `_`; all()/any() with no argument and attributes on textually empty alternatives are not "
            "generated (LALRPOP's syntax rejects them with a diagnostic). Trusted: TLC, rustc, harness runtime."),
+    _entry("C12", "Prec.tla builds the documented tiered grammar (levels sorted, inheritance of level/associativity, reset by a new "
+                  "precedence, left/right/none/all substitution of recursive occurrences, pass-through alternatives, loosest tier "
+                  "keeps the name); Sem.tla evaluates all operator/operand sequences up to the bound; the parser generated from "
+                  "the annotated grammar must agree on acceptance and trees.",
+           "Only annotated nonterminals whose tiered grammar is LR(1) are compared; recursive occurrences nested inside macro "
+           "arguments/groups are not generated yet. Trusted: TLC, rustc, harness runtime."),
     _entry("C25", "The specification's records do not depend on identifiers; every injective renaming of nonterminals, bindings and "
                   "a grammar parameter into LALRPOP-internal-looking names must yield the same verdict, compile, and match the "
                   "same records.",
